@@ -215,6 +215,13 @@ class Ctx:
         self.violations.append(dict(what=what, replay=path))
 
     def finish(self, level, rule, exhaustive=False, extra_cov=None):
+        # candidates that could not be shown again (e.g. dependent on the iteration order of a map) give no verdict,
+        # unless another candidate of the same run was confirmed
+        unrep = getattr(self, "unreproduced", [])
+        if unrep and not self.violations:
+            raise Infra("candidate violation(s) did not reproduce: %s" % unrep[:3])
+        if unrep:
+            self.notes.append("candidates that did not reproduce: %d" % len(unrep))
         cov = self.cov
         cov["rule"] = rule
         cov["exhaustive"] = bool(exhaustive)
